@@ -187,6 +187,8 @@ AppJudge(transport, before, done, seg, ctx, rpl, aux) ==
           THEN { << "C10", "answered-without-completed-signature" >> } ELSE {})
     \cup (IF answered /\ who \in SigResponders /\ id \in SigProtos /\ who # Family(id)
           THEN { << "C10", "answered-by-another-protocols-responder" >> } ELSE {})
+    \cup (IF answered /\ c.ans = "must" /\ c.proto \in SigProtos /\ who \notin { Family(c.proto), "unknown" }
+          THEN { << "C10", "request-completing-a-signature-answered-by-another-responder" >> } ELSE {})
     (* C12: never answered by the protocol whose reply it is; chains die out *)
     \cup (IF answered /\ who \in rt THEN { << "C12", "reply-answered-by-its-own-protocol" >> } ELSE {})
     \cup (IF answered /\ aux.chain >= 2 THEN { << "C12", "reflection-chain-longer-than-two" >> } ELSE {})
